@@ -89,6 +89,18 @@ def env_property(pid, tier, seed, only=None):
             results.append(r)
             print("[%s] %-12s %s viol=%d drift=%d" % (pid, r.tag, json.dumps(r.stats), len(
                 [v for v in r.violations if v["property"] == pid]), len(r.drift)), flush=True)
+    extra_states = extra_trans = 0
+    extra_note = {}
+    if pid == "C04" and not only:
+        # model-level exploration of the one batch-GLOBAL read in the environments (TSPEnv: td["i"].all() == 0)
+        wd, root = tlc.prepare("tspbatch", module="TSPBatch")
+        tlc.write_cfg(wd, root, constants={"R": "2" if tier == "quick" else "3", "NN": "4"},
+                      invariants=["RowIsSolo", "AllFinishTogether"])
+        rb = tlc.run(wd, root, coverage=True)
+        extra_states, extra_trans = rb.distinct, rb.generated
+        extra_note = {"TSPBatch": {"states": rb.distinct, "violated": rb.violated, "coverage": rb.coverage()}}
+        if rb.violated:
+            print("MODEL-DRIFT C04: TSPBatch model violates %s (batch-global read not harmless in the MODEL)" % rb.violated)
     viol = [v for r in results for v in r.violations]
     for r in results:
         for d in r.drift[:5]:
@@ -96,8 +108,9 @@ def env_property(pid, tier, seed, only=None):
     n_new, n_known = verdict.report(pid, viol)
     st = lambda k: sum(r.stats.get(k, 0) for r in results)  # noqa: E731
     cov = {
-        "states": max(1, st("model_states") + st("trace_states")),
-        "transitions": max(1, st("model_transitions")),
+        "states": max(1, st("model_states") + st("trace_states") + extra_states),
+        "transitions": max(1, st("model_transitions") + extra_trans),
+        "batch_models": extra_note,
         "traces_validated_against_impl": st("traces_validated") + st("replayed") + st("classified"),
         "samples": [s for r in results for s in r.samples[:2]] or [{"note": "no bfs stage"}],
         "exhaustive": True,
